@@ -155,6 +155,16 @@ def observe_argsort(case):
             out['again'] = [int(i) for i in sorter.argsort(tuple(tids))] if case['kind'] != 'scripted' else out['ok']
         except Exception as e:
             out['again'] = 'err:' + exn_name(e)
+        # other kinds of sequences holding the same ids: a numpy object array, a deque
+        import collections
+        try:
+            out['as_array'] = [int(i) for i in make_sorter(case, g).argsort(np.array(tids, dtype=object))] if case['kind'] != 'scripted' else out['ok']
+        except Exception as e:
+            out['as_array'] = 'err:' + exn_name(e)
+        try:
+            out['as_deque'] = [int(i) for i in make_sorter(case, g).argsort(collections.deque(tids))] if case['kind'] != 'scripted' else out['ok']
+        except Exception as e:
+            out['as_deque'] = 'err:' + exn_name(e)
     return out
 
 
